@@ -207,6 +207,9 @@ func RunC12(st *simcore.Stream, tier, leg string, logOn bool, res *simcore.Resul
 				res.Violate(w.step(), "late-call-blocked", "%s called after Close had returned is still blocked one simulated second after quiescence", what).With("stack", spec).With("kind", c.Kind)
 			case !c.Returned:
 				res.Violate(w.step(), "blocked-after-close", "%s (blocked since step %d, context never expires) has not returned one simulated second after the quiescent point following Close (returned at step %d)", what, c.Call, closeRet).With("stack", spec).With("kind", c.Kind)
+			case c.Returned && c.Err == nil && len(c.Cbs) == 0:
+				// "reporting success": a nil return means one message was handed to the callback
+				res.Violate(w.step(), "success-without-message", "%s (called at step %d, Close returned at step %d) returned nil although no message was handed to its callback", what, c.Call, closeRet).With("stack", spec).With("kind", c.Kind)
 			case c.Err == nil && c.Call > closeRet:
 				res.Violate(w.step(), "success-after-close", "%s called at step %d, after Close returned at step %d, reported success", what, c.Call, closeRet).With("stack", spec).With("kind", c.Kind).With("callbacks", len(c.Cbs))
 			}
